@@ -393,8 +393,15 @@ var divisorExceptions = map[string]string{
 // dominating guard that makes Len() positive on that deque (Len() > 0 ⇒ d.a != nil and back != -1 ⇒ len(d.a) > 0): Len() != 0,
 // Len() > k, i < Len() with i >= 0. For an unexported helper without local evidence every call site must provide it.
 func dequeNonEmpty(c *Ctx, fn *ssa.Function, b *ssa.BasicBlock, idx int, recv ssa.Value, depth int) bool {
-	rp := valueProv(recv, provEnv{}).String()
-	same := func(v ssa.Value) bool { return valueProv(v, provEnv{}).String() == rp }
+	return dequeNonEmptyProv(c, fn, b, idx, valueProv(recv, provEnv{}), depth)
+}
+
+// dequeNonEmptyProv: the same question for a deque given by its provenance (root value + field path) - the form in which it is
+// handed from a helper to its call sites, where no SSA value for it need exist.
+func dequeNonEmptyProv(c *Ctx, fn *ssa.Function, b *ssa.BasicBlock, idx int, recvP prov, depth int) bool {
+	rp := recvP.String()
+	var gEnv provEnv // the frame of the guard being looked at (a boolean helper's, mapped back through its call)
+	same := func(v ssa.Value) bool { return valueProv(v, gEnv).String() == rp }
 	// dominating maybeExpand call
 	found := false
 	instrs(fn, func(bb *ssa.BasicBlock, i int, in ssa.Instruction) {
@@ -407,6 +414,27 @@ func dequeNonEmpty(c *Ctx, fn *ssa.Function, b *ssa.BasicBlock, idx int, recv ss
 			return
 		}
 		if (bb == b && i < idx) || (bb != b && bb.Dominates(b)) {
+			found = true
+		}
+	})
+	if found {
+		return true
+	}
+	// a dominating call, on that deque, of an in-package helper that returns only when Len() != 0 (it panics otherwise) and
+	// never replaces the buffer (d.take(idx): "panics if the deque is empty")
+	instrs(fn, func(bb *ssa.BasicBlock, i int, in ssa.Instruction) {
+		call, ok := in.(*ssa.Call)
+		if !ok || found || len(call.Call.Args) == 0 || !same(call.Call.Args[0]) {
+			return
+		}
+		cal := staticCallee(&call.Call)
+		if cal == nil || cal.Blocks == nil || rootFn(origin(cal)).Pkg != rootFn(fn).Pkg {
+			return
+		}
+		if !((bb == b && i < idx) || (bb != b && bb.Dominates(b))) {
+			return
+		}
+		if returnsOnlyNonEmpty(c, origin(cal)) {
 			found = true
 		}
 	})
@@ -448,13 +476,16 @@ func dequeNonEmpty(c *Ctx, fn *ssa.Function, b *ssa.BasicBlock, idx int, recv ss
 		if !ok {
 			continue
 		}
+		gEnv = cf.env()
 		x, y, op := cf.x, cf.y, cf.op
 		if isLen(y) {
 			x, y, op = y, x, flip(op)
 		}
 		if !isLen(x) {
+			gEnv = provEnv{}
 			continue
 		}
+		gEnv = provEnv{}
 		if k, ok := resolveVal(y).(*ssa.Const); ok && k.Value != nil {
 			n := k.Int64()
 			if (op == token.NEQ && n == 0) || (op == token.GTR && n >= 0) || (op == token.GEQ && n >= 1) {
@@ -469,12 +500,12 @@ func dequeNonEmpty(c *Ctx, fn *ssa.Function, b *ssa.BasicBlock, idx int, recv ss
 	// a count-down snapshot: `if iter.remaining == 0 { return }` where remaining was set to d.Len() when the iterator was
 	// created, only ever counts down from a non-zero value, and the generation test (which dominates) says the deque was not
 	// modified since: remaining != 0 ⇒ Len() was > 0 then ⇒ is > 0 now
-	if snapshotCounterEvidence(c, fn, gs, recv) {
+	if snapshotCounterEvidence(c, fn, gs, recvP) {
 		return true
 	}
 	// helper: every call site provides the evidence for the corresponding argument
 	if depth < 3 && !token.IsExported(fn.Name()) && fn.Parent() == nil {
-		pv := valueProv(recv, provEnv{})
+		pv := recvP
 		pp, ok := pv.root.(*ssa.Parameter)
 		if !ok {
 			return false
@@ -495,17 +526,9 @@ func dequeNonEmpty(c *Ctx, fn *ssa.Function, b *ssa.BasicBlock, idx int, recv ss
 			}
 			arg := site.Call.Args[pi]
 			// re-apply the field path (e.g. iter.d) on the caller's side
-			av := ssa.Value(arg)
-			if len(pv.fields) > 0 {
-				// the deque is a field of the argument: find a value in the caller with that provenance
-				want := valueProv(arg, provEnv{})
-				want.fields = append(append([]string{}, want.fields...), pv.fields...)
-				av = findValueWithProv(site.Parent(), want.String())
-				if av == nil {
-					return false
-				}
-			}
-			if !dequeNonEmpty(c, site.Parent(), site.Block(), idxIn(site), av, depth+1) {
+			want := valueProv(arg, provEnv{})
+			want.fields = append(append([]string{}, want.fields...), pv.fields...)
+			if !dequeNonEmptyProv(c, site.Parent(), site.Block(), idxIn(site), want, depth+1) {
 				return false
 			}
 		}
@@ -739,8 +762,7 @@ func divisorFromCallers(c *Ctx, fn *ssa.Function, div ssa.Value, depth int) bool
 	return true
 }
 
-func snapshotCounterEvidence(c *Ctx, fn *ssa.Function, gs []guard, recv ssa.Value) bool {
-	pv := valueProv(recv, provEnv{})
+func snapshotCounterEvidence(c *Ctx, fn *ssa.Function, gs []guard, pv prov) bool {
 	root, ok := pv.root.(*ssa.Parameter)
 	if !ok || len(pv.fields) != 1 || len(fn.Params) == 0 || root != fn.Params[0] {
 		return false
@@ -883,4 +905,65 @@ func origType(t types.Type) types.Type {
 		return nt.Origin()
 	}
 	return t
+}
+
+// returnsOnlyNonEmpty: every return of method h (receiver = the deque) is dominated by a test that the receiver's Len() is
+// non-zero, and h (with the helpers it calls) never stores to the buffer field.
+func returnsOnlyNonEmpty(c *Ctx, h *ssa.Function) bool {
+	if len(h.Params) == 0 || !isNamedTypeDeep(h.Params[0].Type(), "container/deque", "Deque") {
+		return false
+	}
+	for _, d := range deepInstrs(h, 2) {
+		if st, ok := d.in.(*ssa.Store); ok {
+			if _, f, ok := storedField(st.Addr); ok && f == "a" {
+				if fa, ok := st.Addr.(*ssa.FieldAddr); ok && isNamedTypeDeep(fa.X.Type(), "container/deque", "Deque") {
+					return false
+				}
+			}
+		}
+	}
+	n := 0
+	for _, b := range h.Blocks {
+		if _, ok := b.Instrs[len(b.Instrs)-1].(*ssa.Return); !ok {
+			continue
+		}
+		n++
+		if !dequeLenPositive(h, b, h.Params[0]) {
+			return false
+		}
+	}
+	return n > 0
+}
+
+// dequeLenPositive: a guard dominating b says recv.Len() != 0 (> 0, >= 1).
+func dequeLenPositive(fn *ssa.Function, b *ssa.BasicBlock, recv ssa.Value) bool {
+	rp := valueProv(recv, provEnv{}).String()
+	isLen := func(v ssa.Value) bool {
+		call, ok := resolveVal(v).(*ssa.Call)
+		if !ok {
+			return false
+		}
+		cal := staticCallee(&call.Call)
+		return cal != nil && fname(cal) == "Len" && len(call.Call.Args) == 1 && valueProv(call.Call.Args[0], provEnv{}).String() == rp
+	}
+	for _, g := range guardsOf(b) {
+		cf, ok := g.asCmp()
+		if !ok {
+			continue
+		}
+		x, y, op := cf.x, cf.y, cf.op
+		if isLen(y) {
+			x, y, op = y, x, flip(op)
+		}
+		if !isLen(x) {
+			continue
+		}
+		if k, ok := resolveVal(y).(*ssa.Const); ok && k.Value != nil {
+			kv := k.Int64()
+			if (op == token.NEQ && kv == 0) || (op == token.GTR && kv >= 0) || (op == token.GEQ && kv >= 1) {
+				return true
+			}
+		}
+	}
+	return false
 }
